@@ -126,7 +126,8 @@ _RE_PRINT = re.compile(r'<<"(ACCEPT|EXPECT|REJECT)", *(-?\d+)(?:, *(.*))?>>\s*$'
 def _clean(x):
     """TLC's Json module rejects null: drop None-valued fields, map other None to a string."""
     if isinstance(x, dict):
-        return {k: _clean(v) for k, v in x.items() if v is not None}
+        # (keys starting with "_" are harness-side provenance, not observations)
+        return {k: _clean(v) for k, v in x.items() if v is not None and not (isinstance(k, str) and k.startswith("_"))}
     if isinstance(x, (list, tuple)):
         return [("None" if v is None else _clean(v)) for v in x]
     return x
